@@ -19,47 +19,54 @@ def tryGetAmountFixedDelta (cur tgt liq : Nat) (isInput aToB : Bool) : R AmountD
 def getAmountUnfixedDelta (cur tgt liq : Nat) (isInput aToB : Bool) : R Nat :=
   if aToB = isInput then getAmountDeltaB cur tgt liq (!isInput) else getAmountDeltaA cur tgt liq (!isInput)
 
+/-- the net budget the step may spend on the curve (`amount_calc`) -/
+def amountCalcOf (rem feeRate : Nat) (isInput : Bool) : R Nat :=
+  if isInput then
+    match checkedMulDiv rem (FEE_RATE_MUL_VALUE - feeRate) FEE_RATE_MUL_VALUE with
+    | .error e => .error e
+    | .ok v => toU64 v
+  else .ok rem
+
+/-- `next_sqrt_price` -/
+def stepNext (initial : AmountDelta) (amountCalc cur tgt liq : Nat) (isInput aToB : Bool) : R Nat :=
+  if initial.lte amountCalc then .ok tgt else getNextSqrtPrice cur liq amountCalc isInput aToB
+
+/-- `amount_fixed_delta` -/
+def stepFixed (initial : AmountDelta) (next cur tgt liq : Nat) (isInput aToB : Bool) : R Nat :=
+  if !(next == tgt) || initial.isExceedsMax then getAmountFixedDelta cur next liq isInput aToB
+  else match initial with
+    | .valid v => .ok v
+    | .exceedsMax _ => .error .Panic
+
+/-- `fee_amount` -/
+def stepFee (rem amountIn feeRate next tgt : Nat) (isInput : Bool) : R Nat :=
+  if isInput && !(next == tgt) then .ok ((rem + TWO64 - amountIn) % TWO64)
+  else
+    match checkedMulDivRoundUp amountIn feeRate (FEE_RATE_MUL_VALUE - feeRate) with
+    | .error e => .error e
+    | .ok v => toU64 v
+
 /-- `compute_swap` -/
 def computeSwap (rem feeRate liq cur tgt : Nat) (isInput aToB : Bool) : R SwapStep :=
   match tryGetAmountFixedDelta cur tgt liq isInput aToB with
   | .error e => .error e
   | .ok initial =>
-    let amountCalcR : R Nat :=
-      if isInput then
-        match checkedMulDiv rem (FEE_RATE_MUL_VALUE - feeRate) FEE_RATE_MUL_VALUE with
-        | .error e => .error e
-        | .ok v => toU64 v
-      else .ok rem
-    match amountCalcR with
+    match amountCalcOf rem feeRate isInput with
     | .error e => .error e
     | .ok amountCalc =>
-      let nextR : R Nat :=
-        if initial.lte amountCalc then .ok tgt else getNextSqrtPrice cur liq amountCalc isInput aToB
-      match nextR with
+      match stepNext initial amountCalc cur tgt liq isInput aToB with
       | .error e => .error e
       | .ok next =>
-        let isMax := next == tgt
         match getAmountUnfixedDelta cur next liq isInput aToB with
         | .error e => .error e
         | .ok unfixed =>
-          let fixedR : R Nat :=
-            if !isMax || initial.isExceedsMax then getAmountFixedDelta cur next liq isInput aToB
-            else match initial with
-              | .valid v => .ok v
-              | .exceedsMax _ => .error .Panic
-          match fixedR with
+          match stepFixed initial next cur tgt liq isInput aToB with
           | .error e => .error e
           | .ok fixed =>
             let amountIn := if isInput then fixed else unfixed
             let amountOut0 := if isInput then unfixed else fixed
             let amountOut := if !isInput && amountOut0 > rem then rem else amountOut0
-            let feeR : R Nat :=
-              if isInput && !isMax then .ok ((rem + TWO64 - amountIn) % TWO64)
-              else
-                match checkedMulDivRoundUp amountIn feeRate (FEE_RATE_MUL_VALUE - feeRate) with
-                | .error e => .error e
-                | .ok v => toU64 v
-            match feeR with
+            match stepFee rem amountIn feeRate next tgt isInput with
             | .error e => .error e
             | .ok fee => .ok { amountIn := amountIn, amountOut := amountOut, nextPrice := next, feeAmount := fee }
 
